@@ -41,6 +41,9 @@ type Builder struct {
 	// TimeFormat: the one time format of the document ("date-time" default, "date", "time", "unix*"): values are
 	// generated at that format's resolution.
 	TimeFormat string
+	// TimeNanoRange: every instant fits int64 nanoseconds since the epoch (1678..2261), the range all
+	// time formats of ogen share (unix-nano cannot represent more).
+	TimeNanoRange bool
 	// Hook, if set, may fill a struct field itself (return true).
 	Hook func(t *rapid.T, parent reflect.Type, f reflect.StructField, v reflect.Value) bool
 	// NoNilInterface / response building: never leave interfaces nil.
@@ -209,8 +212,21 @@ func (b *Builder) fill(t *rapid.T, v reflect.Value, depth int) {
 	case tTime:
 		// whole seconds, years 1..9999, whole-minute offsets
 		sec := rapid.Int64Range(-62135596800+86400, 253402300799-86400).Draw(t, "unix")
-		if rapid.IntRange(0, 2).Draw(t, "recent") == 0 {
+		switch rapid.IntRange(0, 3).Draw(t, "recent") {
+		case 0:
 			sec = rapid.Int64Range(0, 2000000000).Draw(t, "unix-recent")
+		case 1:
+			// where representations end: int32 / uint32 seconds, int64 nanoseconds (1677-09-21, 2262-04-11),
+			// the first and the last years
+			edge := rapid.SampledFrom([]int64{-62135596800 + 86400, -9223372037, -9223372036, -2147483649, -2147483648, -1, 0, 2147483647, 2147483648,
+				4294967295, 4294967296, 9223372036, 9223372037, 16725225600, 253402300799 - 86400}).Draw(t, "unix-edge")
+			sec = edge + rapid.Int64Range(-2, 2).Draw(t, "edge-delta")
+			if sec < -62135596800+86400 || sec > 253402300799-86400 {
+				sec = edge
+			}
+		}
+		if b.TimeNanoRange && (sec < -9223372036 || sec > 9223372036) {
+			sec %= 9223372036
 		}
 		tm := time.Unix(sec, 0).UTC()
 		switch b.TimeFormat {
